@@ -980,3 +980,23 @@ _add(
 
 # part='diagonal' on a mixed element: the JIT replaces the form by the sum of its diagonal blocks
 _add(POOL["taylor_hood_tri"].variant("@diagonal", options={"part": "diagonal"}, tags=("family", "kern")))
+
+# explicit index notation: the request's own free indices carry UFL's global Index counter
+_add(
+    Request(
+        "index_notation_elasticity_tri",
+        "forms",
+        [
+            _mesh("triangle"),
+            'el = basix.ufl.element("Lagrange", "triangle", 1, shape=(2,))',
+            "V = ufl.FunctionSpace(mesh, el)",
+            "u = ufl.TrialFunction(V)",
+            "v = ufl.TestFunction(V)",
+            "f = ufl.Coefficient(V)",
+            "i, j, k = ufl.indices(3)",
+            "a = (u[i].dx(j) * v[i].dx(j) + f[k] * f[k] * u[i].dx(i) * v[j].dx(j)) * ufl.dx",
+            "objs = [a]",
+        ],
+        tags=("kern",),
+    )
+)
